@@ -231,6 +231,8 @@ pub struct World {
     next_port: u16,
     /// set when the client blocked without timeout and nothing was pending
     pub blocked_forever: bool,
+    /// (address the client uses, simulated host it reaches)
+    pub ip_alias: Vec<(IpAddr, IpAddr)>,
 }
 
 pub struct Cx<'a> {
@@ -315,6 +317,7 @@ impl World {
             last_udp_to_server: 0,
             next_port: 40_000,
             blocked_forever: false,
+            ip_alias: Vec::new(),
         }
     }
 
@@ -352,6 +355,9 @@ impl World {
     }
 
     fn find_server(&self, addr: SocketAddr, proto: Proto) -> Option<usize> {
+        // routing: an address the host's resolver gave for a name leads to the aliased simulated host
+        let ip = self.ip_alias.iter().find(|(from, _)| *from == addr.ip()).map_or(addr.ip(), |(_, to)| *to);
+        let addr = SocketAddr::new(ip, addr.port());
         self.servers
             .iter()
             .position(|s| s.proto == proto && s.addr == addr)
